@@ -45,6 +45,7 @@ type E2E struct {
 	Sc     Scenario  `json:"scenario"`
 	gs     []genSpan // same order as Sc.Spans
 	dupIDs bool      // some span id occurs twice
+	perLo  []int     // streams of aggregated views (agg.go): period p holds the spans perLo[p]..perLo[p+1]-1
 	noCoq  bool      // trace ids outside the compact encoding of the case files: oracle only
 }
 
@@ -64,11 +65,11 @@ func sidHex(s uint64) string {
 	return fmt.Sprintf("%016x", s)
 }
 
-var svcPool = []string{"A", "B", "C", "checkout", "db", "auth-svc", "X1", "X2", "Y1", "Y2", ""}
+var svcPool = []string{"A", "B", "C", "checkout", "db", "auth-svc", "X1", "X2", "Y1", "Y2", "", "web.front", "db.v2", "q.r"}
 
 const svcNone = 10 // index of "": the service of a span whose resource carries no service.name
 
-const nSvc = 6 // the last four names are used by the crossjoin stream only
+const nSvc = 6 // X1..Y2 are used by the crossjoin stream only, the names with a '.' by the aggdot stream only (agg.go)
 
 type traceOpt struct {
 	n       int
@@ -295,6 +296,13 @@ func assignResources(r *vhlib.Rng, e *E2E, unnamed bool, splitPct int) {
 }
 
 func genE2E(r *vhlib.Rng, kind string) *E2E {
+	if isAggKind(kind) {
+		e := genAgg(r, kind)
+		if len(e.gs) > 0 {
+			assignResources(r, e, kind == "aggunnamed", 15)
+		}
+		return e
+	}
 	e := genE2E0(r, kind)
 	if e == nil {
 		return nil
@@ -1049,7 +1057,7 @@ func oracle(e *E2E, o *WorkerObs, sum *vhlib.Summary) {
 	}
 
 	// ---- dependency graph ----
-	if !hp("ProcessGeneratedDepGraph", o.DepErr) {
+	if e.Sc.Dep && !hp("ProcessGeneratedDepGraph", o.DepErr) {
 		if o.DepErr != "" {
 			fail("dep_graph_error", o.DepErr)
 		} else if !e.dupIDs {
@@ -1077,7 +1085,7 @@ func oracle(e *E2E, o *WorkerObs, sum *vhlib.Summary) {
 	}
 
 	// ---- RED ----
-	if !hp("ProcessRedTracesIngest", o.RedErr) {
+	if e.Sc.Red && !hp("ProcessRedTracesIngest", o.RedErr) {
 		if o.RedErr != "" {
 			fail("red_error", o.RedErr)
 		} else if !e.dupIDs {
@@ -1356,7 +1364,7 @@ func coqScenario(idx int, e *E2E, o *WorkerObs) (defs string, ncases int) {
 		checks = append(checks, fmt.Sprintf("self_gantt (tid1 %d) %s", tnum[t], rname))
 	}
 	// dependency graph (the handler pages through the window; one page of 1000 holds everything here)
-	if o.DepErr == "" && total <= 1000 {
+	if e.Sc.Dep && o.DepErr == "" && total <= 1000 {
 		var kv []string
 		for a, mm := range o.Dep {
 			for b, v := range mm {
@@ -1367,7 +1375,7 @@ func coqScenario(idx int, e *E2E, o *WorkerObs) (defs string, ncases int) {
 		checks = append(checks, fmt.Sprintf("check_dep %s %s", cands, vhlib.CoqList(kv)))
 	}
 	// RED (one page of 1000)
-	if o.RedErr == "" && total <= 1000 {
+	if e.Sc.Red && o.RedErr == "" && total <= 1000 {
 		var rs []string
 		for _, ro := range o.Red {
 			rs = append(rs, fmt.Sprintf("(%s, (%s, %s, %s, %s, %s, %s))", coqSvc(ro.Service), coqFl(ro.Rate), coqFl(ro.ErrRate), coqFl(ro.P50), coqFl(ro.P90), coqFl(ro.P95), coqFl(ro.P99)))
@@ -1399,12 +1407,17 @@ func streamE2E(cfg vhlib.Config, r *vhlib.Rng, sum *vhlib.Summary) {
 	}{{"main", 36}, {"otlp", 10}, {"malformed", 26}, {"dupid", 8}, {"big", 2}, {"huge", 2},
 		{"deppage", 2}, {"multiroot", 2}, {"crossjoin", 2}, {"manytraces", 2}, {"numid", 2}, // these five: known-defect classes, own generator streams
 		{"paged", 2}, {"pagedwin", 1}, // more than one internal result page of spans, pairwise different timestamps: exact views
-		{"over11k", 1}} // known class: more spans in the window than the paged readers reach (from <= 10 000)
+		{"over11k", 1}, // known class: more spans in the window than the paged readers reach (from <= 10 000)
+		// views merged over several stored periods (agg.go): hourly dependency graphs over a range, RED runs
+		{"agg", 10}, {"aggdot", 1}, {"aggunnamed", 2}, {"aggover100", 1}, {"aggmeta", 1}, // the last four: repaired defects (37f2dcb, 25574c6), the streams stay
+		{"agglegacy", 1}, // records in the format written before 25574c6 are still read
+		{"aggsplit", 1}} // known class: a trace whose spans arrive in two hourly windows
 	if cfg.Thorough() {
 		plan = []struct {
 			kind string
 			n    int
-		}{{"main", 600}, {"otlp", 200}, {"malformed", 500}, {"dupid", 150}, {"big", 60}, {"huge", 40}, {"deppage", 10}, {"multiroot", 10}, {"crossjoin", 10}, {"manytraces", 10}, {"numid", 10}, {"paged", 14}, {"pagedwin", 10}, {"over11k", 3}}
+		}{{"main", 600}, {"otlp", 200}, {"malformed", 500}, {"dupid", 150}, {"big", 60}, {"huge", 40}, {"deppage", 10}, {"multiroot", 10}, {"crossjoin", 10}, {"manytraces", 10}, {"numid", 10}, {"paged", 14}, {"pagedwin", 10}, {"over11k", 3},
+			{"agg", 200}, {"aggdot", 12}, {"aggunnamed", 20}, {"aggsplit", 12}, {"aggover100", 4}, {"aggmeta", 4}, {"agglegacy", 12}}
 	}
 	var all []*E2E
 	for _, p := range plan {
@@ -1453,11 +1466,29 @@ func streamE2E(cfg vhlib.Config, r *vhlib.Rng, sum *vhlib.Summary) {
 		exprs = nil
 		nfile, size = 0, 0
 	}
+	var aggDefs strings.Builder
+	var aggExprs []string
+	aggN, aggShard := 0, 0
+	flushAgg := func() {
+		if len(aggExprs) == 0 {
+			return
+		}
+		sum.WriteCaseFile(cfg.Out, fmt.Sprintf("cases_c12_agg_%d", aggShard), "From SigM Require Import Base Trace TraceCheck TraceAgg TraceAggCheck.\n", aggDefs.String(),
+			strings.Join(aggExprs, "\n ++ "), aggN)
+		aggShard++
+		aggDefs.Reset()
+		aggExprs = nil
+		aggN = 0
+	}
 	for i, e := range all {
 		sum.Count("e2e/" + e.Kind)
 		sum.Count(fmt.Sprintf("e2e_spans<=%d", bucket(len(e.Sc.Spans))))
 		b, _ := json.Marshal(e.Sc.Spans)
-		sum.Eval("e2e:"+string(b), len(e.Sc.Spans) > 1)
+		if e.Sc.Agg != nil {
+			pb, _ := json.Marshal(e.Sc.Agg)
+			b = append(b, pb...)
+		}
+		sum.Eval("e2e:"+string(b), len(e.Sc.Spans) > 1 || e.Sc.Agg != nil)
 		if i == 0 {
 			sum.Sample(map[string]interface{}{"stream": "e2e " + e.Kind, "spans": len(e.Sc.Spans), "first_spans": e.Sc.Spans[:min(3, len(e.Sc.Spans))], "observed_search": obs[i].Search})
 		}
@@ -1469,7 +1500,20 @@ func streamE2E(cfg vhlib.Config, r *vhlib.Rng, sum *vhlib.Summary) {
 			}
 			continue
 		}
-		oracle(e, obs[i], sum)
+		if len(e.Sc.Spans) > 0 || e.Sc.Agg == nil { // aggover100 / aggmeta store given matrices: no spans, no ordinary views
+			oracle(e, obs[i], sum)
+		}
+		if e.Sc.Agg != nil {
+			oracleAgg(e, obs[i], sum)
+			if d, n := coqAgg(i, e, obs[i]); n > 0 {
+				aggDefs.WriteString(d)
+				aggExprs = append(aggExprs, fmt.Sprintf("map (fun i => %d + N.of_nat i) (indices_false ca%d 0)", 1000*i+500, i))
+				aggN += n
+				if aggDefs.Len() > 120000 {
+					flushAgg()
+				}
+			}
+		}
 		if len(e.Sc.Spans) > 1000 && !e.noCoq {
 			// the raw paged reads of a scenario without timestamp ties against the model's pages
 			if d, n := coqPaged(i, e, obs[i]); n > 0 {
@@ -1492,6 +1536,7 @@ func streamE2E(cfg vhlib.Config, r *vhlib.Rng, sum *vhlib.Summary) {
 		}
 	}
 	flush()
+	flushAgg()
 }
 
 func min(a, b int) int {
